@@ -566,6 +566,24 @@ pub fn ref_scenario(prog: &str, cache: usize, gate: Gate) -> Scenario {
     }
 }
 
+/// Generated extended-protocol programs (the C08 generator) relayed without statement caching in
+/// session mode, where named statements legitimately persist on the held server connection.
+pub fn gen_session_scenario(g: &str) -> Scenario {
+    let mut pool = PoolCfg::simple("db", "session", 1, 1, 0);
+    pool.extra = "prepared_statements_cache_size = 0\n".to_string();
+    let cfg = Cfg::one(pool);
+    let servers = cfg.servers();
+    Scenario {
+        name: format!("C03 ref prog=gen-session cache=0 gate=Off id={}", g),
+        toml: cfg.toml(),
+        alt_tomls: vec![],
+        servers,
+        actors: vec![super::c08::program(0, g).actor()],
+        opts: Opts::default(),
+        meta: serde_json::Value::Null,
+    }
+}
+
 /// Compare what client `c` received after login with the direct-connection reference.
 /// `caching`: ParseComplete/CloseComplete may be synthesised (and reordered within a batch).
 pub fn compare_with_reference(log: &[crate::mockpg::Entry], c: usize, caching: bool, oracle: &str, ctx: &str) -> Vec<Violation> {
@@ -703,6 +721,9 @@ pub fn build(tier: &str) -> SimCheck {
     for case in copyin_seq_cases(thorough) {
         scenarios.push(raw_scenario(&case, 0, &[], None));
     }
+    for g in super::c08::gen_programs(if thorough { 3 } else { 2 }) {
+        scenarios.push(gen_session_scenario(&g));
+    }
     for prog in REF_PROGRAMS {
         for cache in [0usize, 8] {
             // without statement caching, named statements do not survive the end of a transaction
@@ -721,7 +742,7 @@ pub fn build(tier: &str) -> SimCheck {
         oracle: Box::new(oracle),
         bound: 0,
         limits: Limits { max_wall_s: if thorough { 1500.0 } else { 50.0 }, ..Default::default() },
-        rule: "raw: reply stream catalogue (row sizes around the 8196-byte thresholds, empty/multi-statement, Notice/ParameterStatus, mid-stream error, COPY out/in/fail with chunk sizes around 8196, COPY in with every sequence of <= 3 (thorough 4) client chunks over 6 sizes below/at/above the threshold, SELECT+COPY in one Query, portal suspension, in-transaction status) x every single cut of the server stream at message boundaries +-0..5 bytes and at the thresholds x client-request cuts; ref: 13 request shapes (simple, extended, named, pipelined, bare Sync then batch, Sync Sync, Describe, Close+re-Parse, Flush, big, COPY, error in batch) x caching on/off x gating, compared with the direct-connection reference; distinct = distinct histories".into(),
+        rule: "raw: reply stream catalogue (row sizes around the 8196-byte thresholds, empty/multi-statement, Notice/ParameterStatus, mid-stream error, COPY out/in/fail with chunk sizes around 8196, COPY in with every sequence of <= 3 (thorough 4) client chunks over 6 sizes below/at/above the threshold, SELECT+COPY in one Query, portal suspension, in-transaction status) x every single cut of the server stream at message boundaries +-0..5 bytes and at the thresholds x client-request cuts; ref: 13 request shapes (simple, extended, named, pipelined, bare Sync then batch, Sync Sync, Describe, Close+re-Parse, Flush, big, COPY, error in batch) x caching on/off x gating, compared with the direct-connection reference; gen-session: every generated extended-protocol batch program of C08 (<= 2, thorough 3 items) in session mode without statement caching, replies and server-received messages compared with the client's; distinct = distinct histories".into(),
         assumptions: vec![
             "TLS framing not exercised (generic Client<S,T> relay code is the same)".into(),
             "reference backend run without a pooler defines the direct-connection reply".into(),
